@@ -8,7 +8,7 @@ use serde::de::DeserializeOwned;
 use serde_json::Value;
 use std::collections::HashMap;
 use std::io::ErrorKind;
-use std::sync::atomic::{AtomicU64, Ordering};
+use std::sync::atomic::{AtomicBool, AtomicU64, Ordering};
 use std::sync::{Arc, Mutex as StdMutex};
 use tokio::io::AsyncWriteExt;
 use tokio::io::{BufReader, BufWriter};
@@ -31,6 +31,26 @@ struct AsyncClientInner {
     pending: StdMutex<PendingRequests>,
     next_id: AtomicU64,
     shutdown: StdMutex<Option<oneshot::Sender<()>>>,
+    /// Set when a request write did not run to completion (the caller's future
+    /// was dropped mid-write, or the write failed): part of a frame may be on
+    /// the wire, so nothing more may be written on this connection.
+    write_broken: AtomicBool,
+}
+
+/// Marks the connection unusable for writing unless disarmed. Armed across a
+/// request write so that dropping the future mid-write (a caller-side
+/// `tokio::time::timeout`, `select!`, or task abort) is noticed.
+struct TornWriteGuard<'a> {
+    broken: &'a AtomicBool,
+    armed: bool,
+}
+
+impl Drop for TornWriteGuard<'_> {
+    fn drop(&mut self) {
+        if self.armed {
+            self.broken.store(true, Ordering::Release);
+        }
+    }
 }
 
 impl Drop for AsyncClientInner {
@@ -107,6 +127,7 @@ impl AsyncClient {
             pending: StdMutex::new(HashMap::new()),
             next_id: AtomicU64::new(1),
             shutdown: StdMutex::new(Some(shutdown_tx)),
+            write_broken: AtomicBool::new(false),
         });
 
         spawn_response_loop(
@@ -664,8 +685,23 @@ impl AsyncClient {
 
     async fn write_request(&self, msg: &Message) -> Result<(), RepeError> {
         let mut writer = self.inner.writer.lock().await;
+        if self.inner.write_broken.load(Ordering::Acquire) {
+            // An earlier request was abandoned mid-write. Appending this frame
+            // would make the peer read it as the rest of the torn one; close the
+            // sending side instead and fail the call.
+            let _ = writer.shutdown().await;
+            return Err(RepeError::Io(std::io::Error::new(
+                ErrorKind::BrokenPipe,
+                "connection closed: an earlier request was abandoned mid-write",
+            )));
+        }
+        let mut guard = TornWriteGuard {
+            broken: &self.inner.write_broken,
+            armed: true,
+        };
         write_message_async(&mut *writer, msg).await?;
         writer.flush().await?;
+        guard.armed = false;
         Ok(())
     }
 
